@@ -57,6 +57,15 @@ fn random_split(rng: &mut Rng, labels: &[usize], balanced: bool) -> VT {
 
 pub fn gen_vtree(rng: &mut Rng, n: usize) -> VT {
     let labels: Vec<usize> = if rng.coin() { (0..n).collect() } else { rng.perm(n) };
+    // one vtree in four (for n >= 4): a right-linear block of three or four variables as the LEFT
+    // child of the root, so that decision nodes at the root have several binary-decision primes
+    // over the same top variable
+    if n >= 4 && rng.chance(1, 4) {
+        let k = if n >= 5 && rng.coin() { 4 } else { 3 };
+        let left = right_linear(&labels[..k]);
+        let right = if rng.coin() { right_linear(&labels[k..]) } else { random_split(rng, &labels[k..], false) };
+        return VT::Node(Box::new(left), Box::new(right));
+    }
     match rng.below(6) {
         0 => right_linear(&labels),
         1 => left_linear(&labels),
@@ -87,6 +96,30 @@ pub fn sdd_canon(p: SddPtr, neg: bool) -> String {
             let body: Vec<String> = elems.iter().map(|(p, s)| format!("({}_{})", p, s)).collect();
             format!("[{}_{}]", p.vtree().value(), body.join("_"))
         }
+    }
+}
+
+/// raw structure, stored element order and complement bits as they are:
+/// `T F v -v B(c.label.idx.lo.hi) D(c.idx.p:s.p:s…)`
+pub fn sdd_raw(p: SddPtr) -> String {
+    match p {
+        SddPtr::PtrTrue => "T".to_string(),
+        SddPtr::PtrFalse => "F".to_string(),
+        SddPtr::Var(l, pol) => format!("{}{}", if pol { "" } else { "-" }, l.value()),
+        SddPtr::BDD(b) | SddPtr::ComplBDD(b) => format!(
+            "B({}.{}.{}.{}.{})",
+            p.is_neg() as u8,
+            b.label().value(),
+            b.index().value(),
+            sdd_raw(b.low()),
+            sdd_raw(b.high())
+        ),
+        SddPtr::Reg(o) | SddPtr::Compl(o) => format!(
+            "D({}.{}.{})",
+            p.is_neg() as u8,
+            o.index().value(),
+            o.iter().map(|a| format!("{}:{}", sdd_raw(a.prime()), sdd_raw(a.sub()))).collect::<Vec<_>>().join(".")
+        ),
     }
 }
 
@@ -147,7 +180,11 @@ pub fn sdd_line(rng: &mut Rng, maxvars: usize, maxops: usize) -> String {
             .iter()
             .map(|p| format!("{}{}", p.is_compressed() as u8, p.is_trimmed() as u8))
             .collect();
-        format!("res={} eq={} ct={} numvars={}", printed.join("|"), csv(&cls), flags.join(","), b.num_vars())
+        let raw: Vec<String> = pool.iter().map(|p| sdd_raw(*p)).collect();
+        format!(
+            "res={} eq={} ct={} numvars={} raw={}",
+            printed.join("|"), csv(&cls), flags.join(","), b.num_vars(), raw.join("|")
+        )
     });
     format!("{} => {}", head, r.unwrap_or_else(|e| e))
 }
